@@ -1411,7 +1411,7 @@ func (c *control) dirT(colon, at bool, params []any) {
 		c.out = append(c.out, spaces[:colnum]...)
 		start = bytes.LastIndexAny(c.out, "\n\r\f")
 		from = utf8.RuneCount(c.out[start+1:])
-		if from == from/colinc*colinc {
+		if colinc == 0 || from == from/colinc*colinc {
 			target = from
 		} else {
 			target = from/colinc*colinc + colinc
@@ -1420,7 +1420,10 @@ func (c *control) dirT(colon, at bool, params []any) {
 		start = bytes.LastIndexAny(c.out, "\n\r\f")
 		from = utf8.RuneCount(c.out[start+1:])
 		target = colnum * colinc
-		if target < from {
+		if colinc == 0 {
+			// Without an increment the only column is colnum itself.
+			target = max(colnum, from)
+		} else if target < from {
 			target = from/colinc*colinc + colinc
 		}
 	}
